@@ -423,13 +423,13 @@ sexp sexp_finalize (sexp ctx) {
   sexp_free_list q, r;
   sexp_proc2 finalizer;
   sexp_sint_t finalize_count = 0;
-  sexp_heap h = sexp_context_heap(ctx);
+  sexp_heap h;
 #if SEXP_USE_DL
   sexp_sint_t free_dls = 0, pass = 0;
  loop:
 #endif
-  /* scan over the whole heap */
-  for ( ; h; h=h->next) {
+  /* scan over the whole heap (again from the start on the second pass) */
+  for (h=sexp_context_heap(ctx); h; h=h->next) {
     p = sexp_heap_first_block(h);
     q = h->free_list;
     end = sexp_heap_end(h);
@@ -453,6 +453,8 @@ sexp sexp_finalize (sexp ctx) {
 #if SEXP_USE_DL
           if (sexp_type_tag(t) == SEXP_DL && pass <= 0)
             free_dls = 1;
+          else if (pass > 0 && sexp_type_tag(t) != SEXP_DL)
+            ;                   /* already finalized on the first pass */
           else
 #endif
             finalizer(ctx, NULL, 1, p);
